@@ -149,6 +149,7 @@ def run(tier, seed):
                      "(a) every successfully executed corpus statement (databases x {memory, disk}): kinds of every returned chunk == statically derived output kinds, single width; "
                      "(b) INSERT enumeration: 8 column types x {nullable, NOT NULL, PRIMARY KEY} x {17 literals of all types (integers in and out of range, fractions, strings, booleans, dates), NULL, omitted column, INSERT..SELECT of NULL, of an out-of-range BIGINT and of a fractional DOUBLE} x {memory, disk (+reopen)}; "
                      "(c) multi-row VALUES: 7 column types x all triples over 7 literals (integer, fractions, out-of-range integer, NULL, string, boolean) in one INSERT vs three single-row INSERTs; "
+                     "(d) INSERT with every permutation of a three-column list (VALUES / SELECT source): each value lands in the column it is named for; "
                      "a case = (statement, db, engine) resp. (type, constraint, source, engine); non-trivial = the statement executed / the insert was attempted", seed)
     # ---- (a)
     js = planutil.jobs(tier)
@@ -220,6 +221,32 @@ def run(tier, seed):
                 chk.fail(cid, f"stored-value-differs@multi-row:{tag}", case, {"multi_row": rs[6]["rows"], "single_rows": rs[7]["rows"]}, outcome="value-differs")
             else:
                 chk.ok(cid, nontrivial=True, outcome="multi-row-stored", sample={"case": case, "stored": rs[6]["rows"]})
+    # ---- (d) INSERT with a column list that permutes the table's columns (every permutation of three columns of different
+    # types, VALUES and SELECT sources): each value must land in the column it is named for
+    import itertools as _it
+    cols3 = [("a", "int not null", "2"), ("b", "varchar", "'7'"), ("c", "double", "1.5")]
+    pscripts, pmeta = [], []
+    for engine in ("mem", "disk"):
+        for perm in _it.permutations(range(3)):
+            names = ", ".join(cols3[i][0] for i in perm)
+            vals = ", ".join(cols3[i][2] for i in perm)
+            for src in ("values", "select"):
+                steps = [{"sql": "create table r(" + ", ".join(f"{n} {t}" for n, t, _ in cols3) + ")"}, {"sql": "create table one(z int)"}, {"sql": "insert into one values (1)"},
+                         {"sql": f"insert into r({names}) values ({vals})" if src == "values" else f"insert into r({names}) select {vals} from one"},
+                         {"sql": "select a, b, c from r"}]
+                pscripts.append({"id": 0, "engine": engine, "steps": steps})
+                pmeta.append({"part": "d", "engine": engine, "column_list": names, "source": src})
+    for case, r in zip(pmeta, runner.run_many("sql", pscripts, timeout=120)):
+        cid = core.case_id(case)
+        rs = r.get("results", [])
+        if r.get("abort") or any(U.status(x) != "rows" for x in rs[:3]):
+            chk.machinery(f"column-list setup failed: {json.dumps(rs)[:300]}")
+        elif U.status(rs[3]) != "rows":
+            chk.fail(cid, "insert-with-column-list-fails", case, rs[3])
+        elif not U.is_rows(rs[4]) or U.decode(rs[4]) != [(2, "7", "1.5")]:
+            chk.fail(cid, "value-stored-in-wrong-column", case, rs[4], outcome="wrong-column")
+        else:
+            chk.ok(cid, nontrivial=True, outcome="column-list-stored", sample={"case": case})
     chk.assumptions += ["expected stored values are given only where the conversion is unambiguous; a rejected INSERT is always acceptable"]
     return chk
 
